@@ -1,4 +1,5 @@
 """C05 — persistent workers process each enqueue exactly once, in order, merged args."""
+import os
 import queue
 import time
 
@@ -80,6 +81,67 @@ def parse_model(line):
         a, _, k = part.partition(';')
         out.append(([int(x) for x in a.split(',') if x], {int(x.split(':')[0]): int(x.split(':')[1]) for x in k.split(',') if x}))
     return out
+
+
+def run_preempted_reader(sess, kind, point):
+    """enqueue(7); close(); then successive next_result(timeout=5) calls, the first of which is preempted at `point` until the
+    child is gone. Returns the list of values / 'END' obtained by up to four calls."""
+    import queue
+    gate = os.path.join(sess.dir, f'gate{next(_ctx_ids)}')
+    w = mk(kind, sess, TG.f_gate)
+    state = {'armed': False}
+
+    def preempt():
+        if not state['armed']:
+            return
+        state['armed'] = False
+        open(gate, 'w').close()
+        watchdog(lambda: w.wait(8), 12)
+
+    ep = w.results_endpoint
+    if point == 'is_alive':
+        orig = w.is_alive
+        w.is_alive = lambda *a, **k: (preempt(), orig(*a, **k))[1]
+    else:
+        orig = getattr(ep, point)
+        try:
+            setattr(ep, point, lambda *a, **k: (preempt(), orig(*a, **k))[1])
+        except AttributeError:
+            drop(w)
+            return None
+    got = []
+    try:
+        w.enqueue(gate, 7)
+        w.close()
+        state['armed'] = True
+        for _ in range(4):
+            st, v = watchdog(lambda: w.next_result(timeout=1.5 if state['armed'] else 5), 12)
+            got.append(v if st == 'ok' else ('END' if st == 'exc' and isinstance(v, queue.Empty) else (st if st != 'exc' else repr(v))))
+            if state['armed']:
+                # the first call did not make this observation (e.g. it waited in a blocking read): nothing to judge
+                return 'not-reached'
+            if len(got) >= 3:
+                break
+    finally:
+        open(gate, 'w').close()
+        try:
+            if point == 'is_alive':
+                del w.is_alive
+        except Exception:
+            pass
+        drop(w)
+    return got
+
+
+def preempted_reader(ctx, sess, kind, point):
+    got = run_preempted_reader(sess, kind, point)
+    if got is None or got == 'not-reached':
+        ctx.count(f'preempted-reader-not-reached:{point}')
+        return
+    ctx.case(('preempted-reader', kind, point), True, sample={'case': 'next_result() preempted until the child is gone', 'kind': kind, 'at': point, 'successive_calls': got})
+    if got[:2] != [49, 'END'] or any(g != 'END' for g in got[2:]):
+        ctx.fail(f'stream-ends-early:{kind}:preempted-reader', f'{kind}: enqueue(7), close(), then next_result() preempted at its `{point}` observation until the child had ended: successive calls gave {got} instead of [49, END, END...]',
+                 {'kind': kind, 'scenario': 'preempted-reader', 'point': point})
 
 
 def main(ctx: Ctx):
@@ -216,6 +278,10 @@ def main(ctx: Ctx):
                             w.terminate(0.5)
                     except Exception:
                         pass
+            # a reader preempted inside next_result(): wherever the call observes the worker (is it alive? is there a message?),
+            # the caller is held until the child has delivered its last result, written the end marker and ended
+            for point in ('is_alive', 'get_nowait', 'get'):
+                preempted_reader(ctx, sess, kind, point)
             # the worker dies on its own (target raises): the owner only drains results_iter(), then enqueues again
             w = mk(kind, sess, TG.t_fail_on_neg)
             for x in (1, 2, -1):
@@ -240,3 +306,9 @@ def main(ctx: Ctx):
 
 def replay(case):
     print(case)
+    if case.get('scenario') == 'preempted-reader':
+        sess = inject.Session()
+        try:
+            print('successive next_result() calls:', run_preempted_reader(sess, case['kind'], case['point']), '(expected [49, END, END...])')
+        finally:
+            sess.close()
